@@ -600,14 +600,17 @@ func handleInputStream(s *Session, handler Handler) (err error) {
 				c: readerChan.c,
 			}:
 				<-readerChan.c
+				// Consume the rest of the stream before continuing the loop.
+				_, err = xmlstream.Copy(discard, inner)
+				if err != nil {
+					return err
+				}
+				return nil
 			case <-readerChan.ctx.Done():
+				// The requester gave up between the lookup and the hand-off: nobody
+				// is waiting for this response any more, so let the handler have it
+				// like any other late response.
 			}
-			// Consume the rest of the stream before continuing the loop.
-			_, err = xmlstream.Copy(discard, inner)
-			if err != nil {
-				return err
-			}
-			return nil
 		}
 	}
 
